@@ -388,8 +388,132 @@ func c15NoLeak(c *Ctx) {
 	st.NOutcomes = int(st.Execs)
 }
 
+// c15ReloadUpstreamOption: the upstream's configured Accept-Encoding (and the location's additions) as changed by a
+// reload are what the origin receives from then on.
+func c15ReloadUpstreamOption(c *Ctx) {
+	if !c.Want("reload-changes-transform") || c.Shard != 0 {
+		return
+	}
+	st := c.Stat("reload-changes-transform", "enumeration")
+	aes := []string{"", "gzip", "snz", "br"}
+	st.Bounds = "upstream acceptEncoding in {unset, gzip, snz, br} and location request header X-Req in {unset, a, b}: every ordered pair of the 12 settings applied by a reload to a running instance, then GET (uncacheable) and POST"
+	type setting struct{ ae, xreq string }
+	var sets []setting
+	for _, ae := range aes {
+		for _, x := range []string{"", "a", "b"} {
+			sets = append(sets, setting{ae, x})
+		}
+	}
+	mk := func(s setting) *config.PikeConfig {
+		cfg := env.BasicConfig(config.CacheConfig{})
+		cfg.Upstreams[0].AcceptEncoding = s.ae
+		if s.xreq != "" {
+			cfg.Locations[0].ReqHeaders = []string{"X-Req:" + s.xreq}
+		}
+		return cfg
+	}
+	for i, s1 := range sets {
+		for j, s2 := range sets {
+			if i == j {
+				continue
+			}
+			e := env.New(mk(s1))
+			procEnv = nil
+			if err := env.Apply(mk(s2)); err != nil {
+				c.Violation("reload-changes-transform", "reload-failed", err.Error(), nil, nil, nil)
+				e.Close()
+				continue
+			}
+			e.Rebind()
+			e.Respond = c15Origin(false)
+			for _, m := range []string{"GET", "POST"} {
+				e.Events()
+				r := e.Do(env.Req{Method: m, URI: "/r", Rid: "r", Header: http.Header{"Accept-Encoding": {"deflate"}}})
+				an := analyze(e.Events())
+				st.Execs++
+				kase := map[string]interface{}{"before": s1, "after": s2, "method": m}
+				calls := an.Reqs["r"].Calls
+				if len(calls) != 1 || r.Status != 200 {
+					c.Violation("reload-changes-transform", fmt.Sprintf("origin-contacts-%d", len(calls)), fmt.Sprintf("status %d", r.Status), nil, kase, nil)
+					continue
+				}
+				wantAE := "deflate"
+				if s2.ae != "" {
+					wantAE = s2.ae
+				}
+				if got := calls[0].Header.Get("Accept-Encoding"); got != wantAE {
+					c.Violation("reload-changes-transform", "accept-encoding-not-as-configured", fmt.Sprintf("upstream acceptEncoding changed from %q to %q by a reload: the origin received Accept-Encoding %q for a %s, expected %q", s1.ae, s2.ae, got, m, wantAE), nil, kase, nil)
+				}
+				if got := calls[0].Header.Get("X-Req"); got != s2.xreq {
+					c.Violation("reload-changes-transform", "added-request-header-not-as-configured", fmt.Sprintf("location request header changed from %q to %q by a reload: the origin received X-Req %q", s1.xreq, s2.xreq, got), nil, kase, nil)
+				}
+			}
+			e.Close()
+		}
+	}
+	st.States, st.Transitions, st.Nontrivial = st.Execs, st.Execs, st.Execs
+	st.NOutcomes = int(st.Execs)
+}
+
+// c15UpstreamEncodes: with an upstream Accept-Encoding configured, the origin encodes even small bodies; the client
+// still receives the resource (decoded or in an encoding it accepts), on the fetch and on later hits.
+func c15UpstreamEncodes(c *Ctx) {
+	if !c.Want("upstream-encodes-small-bodies") || c.Shard != 0 {
+		return
+	}
+	st := c.Stat("upstream-encodes-small-bodies", "enumeration")
+	st.Bounds = "upstream acceptEncoding {gzip, br} x body {20, 500, 2000 bytes} x type {text/plain, image/png} x {cacheable, uncacheable} x first client {gzip, br, none} then clients {none, deflate, gzip, br}"
+	for _, uae := range []string{"gzip", "br"} {
+		cfg := env.BasicConfig(config.CacheConfig{})
+		cfg.Upstreams[0].AcceptEncoding = uae
+		e := getEnv(cfg, "c15-uae-"+uae)
+		for _, L := range []int{20, 500, 2000} {
+			body := []byte(c20Payload(L))
+			enc := refEncode(uae, body)
+			for _, ct := range []string{"text/plain", "image/png"} {
+				for _, cc := range []string{"max-age=60", "no-cache"} {
+					for _, first := range []string{"gzip", "br", ""} {
+						freshCaches(cfg)
+						vtime.Set(vtime.Base)
+						e.Respond = func(oc *env.OriginCall) env.OriginResp {
+							if oc.Header.Get("Accept-Encoding") != uae {
+								return env.OriginResp{Status: 500, Body: []byte("origin did not receive the configured Accept-Encoding")}
+							}
+							return env.OriginResp{Status: 200, Header: http.Header{"Content-Type": {ct}, "Cache-Control": {cc}, "Content-Encoding": {uae}}, Body: enc}
+						}
+						for i, ae := range []string{first, "", "deflate", "gzip", "br"} {
+							hdr := http.Header{}
+							if ae != "" {
+								hdr.Set("Accept-Encoding", ae)
+							}
+							r := e.Do(env.Req{URI: "/e", Rid: "r", Header: hdr})
+							e.Events()
+							st.Execs++
+							kase := map[string]interface{}{"upstream_ae": uae, "len": L, "type": ct, "cache_control": cc, "first_client": first, "request": i, "accept": ae}
+							ce := r.Header.Get("Content-Encoding")
+							dec, err := refDecode(ce, r.Body)
+							switch {
+							case r.Status != 200:
+								c.Violation("upstream-encodes-small-bodies", fmt.Sprintf("status-%d", r.Status), trunc(r.Body), nil, kase, nil)
+							case ce != "" && !acceptsToken(ae, ce):
+								c.Violation("upstream-encodes-small-bodies", "encoding-not-accepted", fmt.Sprintf("client accepting %q received Content-Encoding %q (label %s)", ae, ce, r.XStatus), nil, kase, nil)
+							case err != nil || !bytes.Equal(dec, body):
+								c.Violation("upstream-encodes-small-bodies", "body-not-the-resource", fmt.Sprintf("upstream answers %s-encoded %d-byte %s; request %d (client accepts %q, label %s) received %d bytes (Content-Encoding %q) that do not decode to the resource", uae, L, ct, i, ae, r.XStatus, len(r.Body), ce), nil, kase, nil)
+							}
+						}
+					}
+				}
+			}
+		}
+	}
+	st.States, st.Transitions, st.Nontrivial = st.Execs, st.Execs, st.Execs
+	st.NOutcomes = int(st.Execs)
+}
+
 func c15Mix(c *Ctx) {
 	c15NoLeak(c)
+	c15ReloadUpstreamOption(c)
+	c15UpstreamEncodes(c)
 	// several locations with their own additions on one server: a request gets the additions of ITS location only
 	if c.Want("locations-do-not-mix") && c.Shard == 0 {
 		st2 := c.Stat("locations-do-not-mix", "enumeration")
